@@ -144,6 +144,24 @@ PROPS["C05"] = {
     },
 }
 
+PROPS["C06"] = {
+    "level": "exploration",
+    "rule": ("each run draws a role (server or client), an input from a grammar with classes VALID / INVALID / AMBIGUOUS (valid exchanges with header order/case/extra-header/version-list variants; "
+             "truncated at any byte; wrong methods; zero/unsupported/multiple versions; wrong or missing Upgrade/Connection tokens; malformed request or status lines; oversized blocks; bare LF, "
+             "folding, NUL, 8-bit; binary noise; single-byte mutations of valid exchanges; pipelined following bytes) and feeds the same bytes to the real handshake code under 4 segmentations "
+             "(coalesced, byte-at-a-time, random cuts, cuts near line ends); non-trivial = all four outcomes obtained and judged; distinct = schedule shapes"),
+    "probes": ["established", "refused"],
+    "technique": "deterministic simulation: grammar+mutation inputs x driver-chosen segmentations against the real handshake code; acceptance model, metamorphic equality across segmentations, process survival",
+    "level_text": ("Seeded exploration of the unbounded input space with three oracles: (1) a session is established iff the input was built as VALID (for ambiguous inputs: established implies an "
+                   "independent 40-line parser accepts it), and the bytes following a valid handshake reach the next layer unaltered; (2) established flag, status/request lines written and the next-layer bytes "
+                   "are identical across segmentations; (3) the worker process survives (a panic is reported as rule 'crash' by the orchestrator)."),
+    "level_note": "Handshake code runs directly (socketace.NewServerConnection / NewClientConnection) over a simnet pipe with a scripted peer; no StartTLS certificate on the server side (C04 covers StartTLS).",
+    "tiers": {
+        "quick": {"runs": 4000, "chunk": 250, "shrink_s": 30},
+        "thorough": {"runs": 400000, "chunk": 1000, "shrink_s": 90},
+    },
+}
+
 PENDING = "check under construction in this round; see DESIGN.md section 5 for the planned simulation"
 NOT_APPLICABLE = [
     {"property_id": "C08", "reason": "pure function of one byte string (codec Encode/Decode): no schedule, clock, fault or second party for a simulator to control; see DESIGN.md section 6"},
